@@ -217,6 +217,16 @@ Qed.
 
 End Find.
 
+(** ** a concurrent iterator advanced by [k] elements before [into_par()]: the computation runs
+    over the rest, and position [i] of the rest is position [k + i] of the original source
+    (what [find_with_index] reports: [shift_res] in Exec.v) *)
+Lemma pre_advanced_position (A : Type) (l : list A) k i :
+  nth_error (skipn k l) i = nth_error l (k + i).
+Proof.
+  revert l. induction k as [|k IH]; intros [|a l]; cbn [skipn plus nth_error]; auto.
+  destruct i; reflexivity.
+Qed.
+
 (** ** eager sites: the vector an eager transformation materialises, computed by an actual
     runner run under any schedule, is the denotation [apply_stage] uses *)
 Definition eager_vector (st : pstate V) r sched : list V :=
